@@ -660,7 +660,15 @@ class SyncObj(object):
                 try:
                     currentTermID = entry[2]
                     subscribers = self.__commandsWaitingCommit.pop(entry[1], [])
-                    res = self.__doApplyCommand(entry[0])
+                    try:
+                        res = self.__doApplyCommand(entry[0])
+                    except SyncObjExceptionWrongVer:
+                        raise
+                    except Exception:
+                        # The command is committed: every node executes it and gets the same error.
+                        # Treat it as applied (with whatever it changed before raising) and go on.
+                        logger.exception('replicated method raised an exception')
+                        res = None
                     for subscribeTermID, callback in subscribers:
                         if subscribeTermID == currentTermID:
                             callback(res, FAIL_REASON.SUCCESS)
